@@ -141,6 +141,9 @@ func (w *XW) AddServer(i int, tail, head uint64, opts ...p2p.Option[p2p.ServerPa
 		}
 		xs.Rec = &RecStore{Store: st, S: w.S, Name: fmt.Sprintf("srv%d", i)}
 		all := append([]p2p.Option[p2p.ServerParameters]{p2p.WithNetworkID[p2p.ServerParameters](xNetworkID)}, opts...)
+		if w.Metrics {
+			all = append(all, p2p.WithMetrics[p2p.ServerParameters]())
+		}
 		xs.Srv, err = p2p.NewExchangeServer[*H](w.Hosts[i], xs.Rec, all...)
 		if err != nil {
 			return
